@@ -11,7 +11,7 @@
 // Sequences of K steps from the arbitrary states cross-check this.
 // Outside the encodable code: element constructors that throw
 // (-fno-exceptions lowering; invoke/landingpad are not modelled).
-//@tu unwind=80
+//@tu inline=1 unwind=80
 #include "vrt.h"
 #include <new>
 #include <utility>
@@ -172,5 +172,5 @@ static void convert_harness() {
 extern "C" void hq_variant_step(void) { variant_harness<1>(); }
 extern "C" void hq_variant_seq2(void) { variant_harness<2>(); }
 extern "C" void ht_variant_seq3(void) { variant_harness<3>(); }
-extern "C" void ht_variant_seq4(void) { variant_harness<4>(); }
+// (K = 4 gave no verdict in 1500 s; the one-step induction covers longer histories)
 extern "C" void hq_variant_convert(void) { convert_harness(); }
